@@ -140,8 +140,14 @@ def handle (op : String) (j : Json) : Except String Json := do
     let deadlock := (getBool j "as_is_deadlock").toOption.getD false
     let trueFor ← (do pure ((← getArr j "handler_true").filterMap (fun x => x.getStr?.toOption)) : Except String (List String))
     let hdflt := (getBool j "handler_default").toOption.getD false
+    -- "handler_seq": verdicts of the first handler calls by position (null = decide by name), then by name
+    let hseq : List (Option Bool) := match j.getObjValAs? (Array Json) "handler_seq" with
+      | .ok a => a.toList.map (fun x => x.getBool?.toOption)
+      | .error _ => []
     let cfg : Cfg := { bump := bump, spinDeadlock := deadlock,
-                       handler := fun e => if trueFor.contains e then !hdflt else hdflt }
+                       handler := fun k e => match hseq[k]? with
+                         | some (some b) => b
+                         | _ => if trueFor.contains e then !hdflt else hdflt }
     let (s, outs) := runOps cfg { clock := clock } ops
     pure (Json.mkObj [
       ("outs", Json.arr (outs.map outToJson).toArray),
